@@ -195,6 +195,8 @@ def jobs(tier):
         out.append(Job('C16', 'c16:h_dm1', {'n': n, 'cycle': cycle, 'sym_lamps': 2 if q else (4 if n <= 2 else 2), 'cycles': 2},
                        W=40, wall=300 if q else 1800, max_paths=5000, validate=1))
     out.append(Job('C16', 'c16:h_dm1', {'n': 1, 'cycle': '1/5', 'sym_lamps': 1, 'cycles': 3}, W=40, wall=300, validate=1))
+    for n in ([1, 14, 15] if q else [1, 2, 7, 14, 15, 16, 40, 100]):
+        out.append(Job('C16', 'c16:h_dm1', {'n': n, 'dll': 'j1939-22', 'cycle': '1' if n <= 40 else '4', 'sym_lamps': 2, 'cycles': 2}, W=40, wall=300 if q else 1800, max_paths=5000, validate=1))
     out.append(Job('C16', 'c16:h_dm1_overlap', {'n': 3, 'cycle': '3/50', 'cycles': 5}, W=40, wall=300, validate=1))
     out.append(Job('C16', 'c16:h_dm1_overlap', {'n': 5, 'cycle': '1/10', 'cycles': 6}, W=40, wall=300, validate=1))
     return out
@@ -206,7 +208,7 @@ def meta(tier):
                    'lamps: all 5^4 state combinations (split by the solver at the table lookup)',
                    'DM22: all SPN/FMI, destination 0..253, both request kinds',
                    'DM1 end to end on J1939-21 (single frame and BAM), number of codes n in ' + ('{1,2,3,15}' if tier == 'quick' else '{1..20,100,400,445}') + ', every DTC field symbolic, 1-4 lamps symbolic, 2-3 cycles, then stop_send and 3 more cycle times',
-                   'cycle times 0.2 s / 1 s (>= transfer duration)', 'overlap shape: cycle time shorter than the BAM, trouble codes change every cycle (fresh symbolic SPN/OC per call): every received DM1 equals one supplied snapshot'],
-        'outside': ['DM1 over J1939-22 (multi-PG / FD BAM) in this round', 'cycle times shorter than the BAM they trigger', 'several start_send registrations on one Dm1 object'],
+                   'DM1 end to end on J1939-22: n in ' + ('{1,14,15}' if tier == 'quick' else '{1,2,7,14,15,16,40,100}') + ' (multi-PG up to 58 bytes, FD BAM above)', 'cycle times 0.2 s / 1 s (>= transfer duration)', 'overlap shape: cycle time shorter than the BAM, trouble codes change every cycle (fresh symbolic SPN/OC per call): every received DM1 equals one supplied snapshot'],
+        'outside': ['cycle times shorter than the BAM they trigger', 'several start_send registrations on one Dm1 object'],
         'assumptions': ['reference layouts jv/ref/dm.py from SAE J1939-73 field tables'],
     }
